@@ -7,6 +7,7 @@ mod c12;
 mod gen;
 mod seqs;
 mod c19;
+mod c16;
 mod kmers;
 mod val;
 
@@ -51,6 +52,7 @@ fn main() {
         "C17" => seqs::c17(&mut out, &mut rng, &tier),
         "C18" => seqs::c18(&mut out, &mut rng, &tier),
         "C19" => c19::c19(&mut out, &mut rng, &tier),
+        "C16" => c16::c16(&mut out, &mut rng, &tier),
         _ => {
             eprintln!("unknown property {}", prop);
             std::process::exit(2);
